@@ -1,4 +1,5 @@
 """Build pgmpy objects from abstract instances under a concretisation; project results by NAME lookup."""
+import os
 import random
 
 from .concretise import shuffled, state_names, var_names
@@ -129,6 +130,8 @@ def make_virtual(inst, conc, virt):
     from pgmpy.factors.discrete import TabularCPD
     out = []
     for v, d in virt.items():
-        out.append(TabularCPD(conc.vn[v], len(d["w"]), [[x / d["den"]] for x in d["w"]],
-                              state_names={conc.vn[v]: [conc.sn[v][s] for s in inst["states"][v]]}))
+        # (a virtual-evidence CPD must list the states in the model's order: another order is rejected by check_model with a ValueError)
+        states, w = list(inst["states"][v]), list(d["w"])
+        out.append(TabularCPD(conc.vn[v], len(w), [[x / d["den"]] for x in w],
+                              state_names={conc.vn[v]: [conc.sn[v][s] for s in states]}))
     return out
